@@ -65,12 +65,13 @@ func c30gen(rng *rand.Rand, i int) c30cfg {
 		cf.file = c30map{"client1": {1: "device/000001/data", 2: "device/000001/config"}, "*": {1: "device/any/data", 2: "device/any/config", 3: "device/any/bcast"}}
 	} else if rng.Intn(5) > 0 {
 		cf.file = c30map{}
+		emptyFile := i%6 == 5 // every sixth configuration has a topics file without entries (and usually options)
 		var sb strings.Builder
 		sb.WriteString("---\n")
 		for _, c := range clients {
 			var lines []string
 			for id := uint16(1); id <= 3; id++ {
-				if rng.Intn(2) == 0 {
+				if !emptyFile && rng.Intn(2) == 0 {
 					n := names[rng.Intn(len(names))]
 					cf.file.add(c, n, id)
 					lines = append(lines, fmt.Sprintf("  %d: %s\n", id, n))
@@ -86,7 +87,8 @@ func c30gen(rng *rand.Rand, i int) c30cfg {
 		}
 		cf.yaml = sb.String()
 		if len(cf.file) == 0 {
-			cf.yaml = "---\n{}\n"
+			// an empty mapping, or a YAML document that is empty / null (read as "no entries")
+			cf.yaml = []string{"---\n{}\n", "---\n", "~\n", "# nothing predefined here\n---\n", "null\n"}[rng.Intn(5)]
 		}
 	}
 	for c, x := range cf.file {
@@ -374,5 +376,5 @@ func TestC30(t *testing.T) {
 			r.Sample(map[string]interface{}{"yaml": cf.yaml, "options": cf.options, "via_env": cf.viaEnv, "reference_mapping": cf.ref.String(), "probes": probes})
 		}
 	})
-	r.Finish("the three command-line tools are built from the tree under test with the default toolchain and run as processes on loopback. Configurations: the repository's topics.yaml and random small YAML files (clients c1, c2, '*'; IDs 1-3; names t/x..t/w) plus 0-3 --predefined-topic options (2- and 3-field forms, overlapping clients and IDs), given as flags or through PREDEFINED_TOPICS_FILE / PREDEFINED_TOPIC. Reference mapping: file entries overridden entry by entry by the options in order, 2-field options meaning '*'. bisquitt: UDP peers connect as c1/c2/client1/nobody and publish QoS 1 with predefined IDs 1-4; a fake TCP broker must see exactly the reference name, or nothing when the reference has none. bisquitt-pub / bisquitt-sub against a fake UDP gateway: the PUBLISH / SUBSCRIBE on the wire must use a predefined ID that means the topic for that client, or none when there is none; a tool exiting non-zero on a valid configuration is a violation. Real time with watchdogs; a silent tool is inconclusive.", nil)
+	r.Finish("the three command-line tools are built from the tree under test with the default toolchain and run as processes on loopback. Configurations: the repository's topics.yaml and random small YAML files (clients c1, c2, '*'; IDs 1-3; names t/x..t/w; also empty mappings and empty / null documents) plus 0-3 --predefined-topic options (2- and 3-field forms, overlapping clients and IDs), given as flags or through PREDEFINED_TOPICS_FILE / PREDEFINED_TOPIC. Reference mapping: file entries overridden entry by entry by the options in order, 2-field options meaning '*'. bisquitt: UDP peers connect as c1/c2/client1/nobody and publish QoS 1 with predefined IDs 1-4; a fake TCP broker must see exactly the reference name, or nothing when the reference has none. bisquitt-pub / bisquitt-sub against a fake UDP gateway: the PUBLISH / SUBSCRIBE on the wire must use a predefined ID that means the topic for that client, or none when there is none; a tool exiting non-zero on a valid configuration is a violation. Real time with watchdogs; a silent tool is inconclusive.", nil)
 }
